@@ -293,7 +293,7 @@ def check_case(ctx, case: Case, lines, alloc_cap=None, do_model=True):
         inst, projs = core.build_instance(case)
         prof = core.build_profile(case, inst, projs, multi=multi)
         builds[multi] = (inst, projs, prof, core.profile_entries(case, prof))
-    for sat in SATS[case.btype] + (["CC_Sat"] if case.btype == "app" and case.seed % 3 == 0 else []):
+    for sat in SATS[case.btype] + (["CC_Sat"] if case.btype == "app" and case.seed % 4 == 0 else []):
         defs = Defs(case, sat)
         for W in allocs:
             want = defs.evaluate(W)
